@@ -11,6 +11,8 @@ def run(ctx):
     quick = ctx.tier == 'quick'
     vlib.model_check(ctx, 'OciRegistryMC.tla', 'OciRegistryMC_quick.cfg',
                      what='TagStable, TaggedStays, ClosureKept, TaggedPresent in immutable-tags mode, all histories over 2 blobs / 3 manifests x 3 types / 1 tag')
+    vlib.model_check(ctx, 'OciRegistryMC.tla', 'OciRegistryMC_broken.cfg',
+                     what='the same properties when a tagged index names unreadable bytes as an image manifest ahead of a real one (the reachability walk cannot be completed)')
     if not quick:
         vlib.model_check(ctx, 'OciRegistryMC.tla', 'OciRegistryMC_thorough.cfg', timeout=1500, what='4 manifests incl. a child declared under an opaque type, 2 tags')
     vh = vlib.build_harness(ctx)
@@ -23,6 +25,8 @@ def run(ctx):
     scen += rc.gen_scenarios(ctx, 40 if quick else 2000, cfg='OciRegistryGenImm.cfg')
     # one history per (state, operation) pair of the closure universe: every "delete something a tag reaches"
     scen += rc.cover_scenarios(ctx, 'OciRegistryCover_imm.cfg', sample=1800 if quick else None)
+    # the same for the universe with the index that names unreadable bytes as an image manifest
+    scen += rc.cover_scenarios(ctx, 'OciRegistryCover_broken.cfg', sample=700 if quick else None)
     sp = rc.write_scenarios(ctx, scen)
     t = os.path.join(td, 'tlc-imm.ndjson')
     rc.run_reg(ctx, vh, t, stacks='mem', scen=sp)
